@@ -67,6 +67,14 @@ def stepBasic (s : State) (toks : List String) : State × String :=
                                    init := decList init, nonce := dec nonce, err := decErr err } with
       | .crash => (s, "crash")
       | .out r s' => (s', s!"{boolTok r} {showState s'}")
+  | ["always", ty] =>
+    match Ty.ofTok ty with
+    | none => (s, "bad-op")
+    | some t =>
+      let s' := match s t with
+        | some w => s.set t (some { w with always := true })
+        | none => s
+      (s', showState s')
   | ["dsend", ty, nonce, names, ok] =>
     match Ty.ofTok ty with
     | none => (s, "bad-op")
